@@ -45,6 +45,19 @@ Theorem C18_rows_complete : forall h recs ssel nsel t r alt,
   exists row, In row (t_rows t) /\ row_spec r row /\ v_alt row = alt.
 Proof. exact read_row_complete. Qed.
 
+(* a VCF without records: a table without rows that still is paired exactly when a normal was
+   chosen, whatever depth / somatic filters are asked for *)
+Theorem C18_rows_empty_file : forall h ssel nsel md sr ss p,
+  choose_samples h ssel nsel = Ok p ->
+  read_vcf h [] ssel nsel md sr ss = Ok {| t_paired := truthy (snd p); t_rows := [] |}.
+Proof. exact read_empty_file. Qed.
+
+(* the paired normal's columns are there exactly when the chosen pair has a normal *)
+Theorem C18_rows_paired_flag : forall h recs ssel nsel md sr ss t,
+  read_vcf h recs ssel nsel md sr ss = Ok t ->
+  exists p, choose_samples h ssel nsel = Ok p /\ t_paired t = truthy (snd p).
+Proof. exact read_paired_flag. Qed.
+
 (* ---- C18_choose: the documented selection rules as a decision table -------- *)
 
 (* PEDIGREE-declared pairs first (whatever normal id is given) *)
@@ -99,6 +112,27 @@ Theorem C18_choose_index : forall h i s nsel,
   0 <= i -> nth_error (h_samples h) (Z.to_nat i) = Some s ->
   choose_samples h (SelIdx i) nsel = choose_samples h (SelName s) nsel.
 Proof. exact choose_index. Qed.
+
+(* a negative index counts from the end of the header *)
+Theorem C18_choose_negative_index : forall h i s nsel,
+  - Z.of_nat (length (h_samples h)) <= i < 0 ->
+  nth_error (h_samples h) (Z.to_nat (i + Z.of_nat (length (h_samples h)))) = Some s ->
+  choose_samples h (SelIdx i) nsel = choose_samples h (SelName s) nsel.
+Proof. exact choose_negative_index. Qed.
+
+(* selectors that name no sample of the file are refused *)
+Theorem C18_choose_unknown_sample : forall h s nsel,
+  s <> ""%string -> ~ In s (h_samples h) -> exists e, choose_samples h (SelName s) nsel = Fail e.
+Proof. exact choose_unknown_sample. Qed.
+
+Theorem C18_choose_unknown_normal : forall h ssel n,
+  n <> ""%string -> ~ In n (h_samples h) -> exists e, choose_samples h ssel (SelName n) = Fail e.
+Proof. exact choose_unknown_normal. Qed.
+
+Theorem C18_choose_index_out_of_range : forall h i nsel,
+  i < - Z.of_nat (length (h_samples h)) \/ Z.of_nat (length (h_samples h)) <= i ->
+  choose_samples h (SelIdx i) nsel = Fail IndexError.
+Proof. exact choose_index_out_of_range. Qed.
 
 (* ---- C18_filters ------------------------------------------------------------ *)
 
@@ -173,43 +207,64 @@ Theorem C18_baf_missing : forall rows rg ah,
   series2value ah (hits_of rows rg) = XNaN.
 Proof. exact hits_none. Qed.
 
-(* two or more hits: the median of the mirrored frequencies; on the requested side of 1/2;
-   inside [0,1] for frequencies inside [0,1] *)
+(* ONE or more hits, any above_half: the median of the frequencies mirrored to one side of 1/2
+   (the requested side, else that of the majority); on the requested side of 1/2; inside [0,1]
+   for frequencies inside [0,1] *)
 Theorem C18_baf : forall ah qs,
-  (2 <= length qs)%nat ->
+  qs <> [] ->
   exists m, series2value ah (map Fin qs) = Fin m /\
     is_median m (map (mirror (direction ah qs)) qs) /\
     (ah = Some true -> (1 # 2 <= m)%Q) /\
     (ah = Some false -> (m <= 1 # 2)%Q) /\
     (Forall (fun v => (0 <= v /\ v <= 1)%Q) qs -> (0 <= m /\ m <= 1)%Q).
-Proof. exact baf_many. Qed.
+Proof. exact baf_any. Qed.
 
 (* unspecified direction = that of the majority: median of the raw values above 1/2 *)
 Theorem C18_baf_majority : forall qs,
   qs <> [] -> direction None qs = Qlt_bool (1 # 2) (median_value qs).
 Proof. exact direction_none. Qed.
 
-(* a single hit is returned as it is; with the majority direction that IS its mirrored value ... *)
+(* a single hit with the majority direction is returned as it is, which IS its mirrored value *)
 Theorem C18_baf_single_majority : forall x,
   series2value None [Fin x] = Fin x /\ (mirror (direction None [x]) x == x)%Q.
 Proof. exact baf_single_majority. Qed.
 
-(* ... but with an explicit side it is not mirrored: the clause fails for the faithful model *)
-Theorem C18_baf_single_refuted :
-  exists x : Q, series2value (Some true) [Fin x] = Fin x /\ (x < 1 # 2)%Q /\ ~ (mirror true x == x)%Q.
-Proof. exact baf_single_refuted. Qed.
+(* a single hit with an explicit side is mirrored to that side (repaired in /repo 98a0701) *)
+Theorem C18_baf_single_side : forall b x,
+  exists m, series2value (Some b) [Fin x] = Fin m /\ (m == mirror_spec b x)%Q /\
+    (b = true -> (1 # 2 <= m)%Q) /\ (b = false -> (m <= 1 # 2)%Q).
+Proof. exact baf_single_side. Qed.
 
-(* one value per range, in the order of the ranges *)
-Theorem C18_baf_per_range : forall paired rows ranges ah,
+(* one value per range, in the order of the ranges, each from the heterozygous variants that
+   overlap the range (TumorBoost-ed first when asked and a normal is there) *)
+Theorem C18_baf_per_range : forall paired rows ranges ah boost,
   ranges <> [] ->
-  baf_by_ranges paired rows ranges ah false =
-    Some (map (fun rg => series2value ah (hits_of (heterozygous rows) rg)) ranges).
+  baf_by_ranges paired rows ranges ah boost =
+    Some (map (fun rg => series2value ah (hits_of (baf_source paired rows boost) rg)) ranges).
 Proof. exact baf_by_ranges_shape. Qed.
 
-(* no variant at all: every range is missing *)
+(* no variant at all (e.g. a VCF without records): every range is missing *)
 Theorem C18_baf_no_variants : forall paired ranges ah boost,
   ranges <> [] -> baf_by_ranges paired [] ranges ah boost = Some (map (fun _ => XNaN) ranges).
 Proof. exact baf_by_ranges_empty. Qed.
+
+(* het_frac_by_ranges: per range the fraction of (germline-)heterozygous variants among the variants
+   overlapping it -- a number in [0,1], missing where there is none *)
+Theorem C18_het_frac : forall hits,
+  hits <> [] ->
+  exists q, het_frac_value hits = Fin q /\
+    (q == inject_Z (count_true hits) / inject_Z (Z.of_nat (length hits)))%Q /\ (0 <= q)%Q /\ (q <= 1)%Q.
+Proof. exact het_frac_value_spec. Qed.
+
+Theorem C18_het_frac_per_range : forall rows ranges,
+  ranges <> [] ->
+  het_frac_by_ranges rows ranges = Some (map (fun rg => het_frac_value (het_flags rows rg)) ranges).
+Proof. exact het_frac_shape. Qed.
+
+Theorem C18_het_frac_flags : forall rows rg,
+  Forall (fun lr => row_valid (snd lr)) rows ->
+  het_flags rows rg = map (fun lr => germline_het (snd lr)) (filter (fun lr => overlaps rg (snd lr)) rows).
+Proof. exact het_flags_germline. Qed.
 
 (* ---- C18_boost, C18_rescale ------------------------------------------------------- *)
 
@@ -227,6 +282,30 @@ Theorem C18_rescale_inverse : forall p t,
   ~ (p == 0)%Q -> (rescale_baf p (p * t + (1 - p) / 2) == t)%Q.
 Proof. exact rescale_inverse. Qed.
 
+(* the baf column of do_call: per segment the default BAF (majority direction, no TumorBoost) of the
+   heterozygous variants, put through the purity formula exactly when 0 <> purity < 1 *)
+Theorem C18_call_baf : forall paired rows ranges purity,
+  rows <> [] -> ranges <> [] ->
+  call_baf paired rows ranges purity =
+    Some (map (fun rg =>
+                 let b := series2value None (hits_of (heterozygous rows) rg) in
+                 match purity_rescales purity with Some p => rescale_x p b | None => b end) ranges).
+Proof. exact call_baf_spec. Qed.
+
+Theorem C18_call_baf_rescales : forall p, ~ (p == 0)%Q -> (p < 1)%Q -> purity_rescales (Some p) = Some p.
+Proof. exact purity_rescales_some. Qed.
+
+Theorem C18_call_baf_pure : forall p, (1 <= p)%Q -> purity_rescales (Some p) = None.
+Proof. exact purity_rescales_pure. Qed.
+
+(* a missing BAF stays missing; a number becomes (obs - (1 - p)/2) / p *)
+Theorem C18_call_baf_cell : forall p v,
+  match v with
+  | Fin q => exists q', rescale_x p v = Fin q' /\ (q' == rescale_spec p q)%Q
+  | _ => rescale_x p v = v
+  end.
+Proof. exact rescale_x_cases. Qed.
+
 (* ---- C18_attached ------------------------------------------------------------------- *)
 
 (* load_het_snps (no TumorBoost): every kept row is a row of the table that was read, with its
@@ -240,20 +319,32 @@ Proof. exact load_het_attached. Qed.
 Theorem C18_attached_sort : forall rows, Permutation (sort_rows rows) rows.
 Proof. exact sort_rows_perm. Qed.
 
-(* TumorBoost written back into a table none of whose rows was dropped: every row gets its own value *)
-Theorem C18_attached_boost_contiguous : forall rows,
-  boost_assign (label_from 0 rows)
-  = map (fun lr => (fst lr, set_freq (snd lr) (boost_row (snd lr)))) (label_from 0 rows).
-Proof. exact boost_assign_contiguous. Qed.
+(* load_het_snps(tumor_boost=True): whatever rows were dropped before (any label pattern), every
+   kept row has its own coordinates, depth, count and normal frequency, and its frequency is
+   exactly TumorBoost of ITS OWN tumour and normal frequencies (repaired in /repo 1e91c33) *)
+Theorem C18_attached_boost : forall paired zf rows out lr,
+  load_het_core paired zf true rows = Ok out -> In lr out ->
+  exists r, In r rows /\ same_locus (snd lr) r /\ g_freq (v_t (snd lr)) = boost_row r.
+Proof. exact load_het_boost_attached. Qed.
 
-(* ... but after rows were dropped the values are aligned by stale index labels: the record at
-   199 receives the normalised frequency of another record *)
-Theorem C18_attached_boost_refuted :
-  exists rows out lr r0,
-    load_het_core true None true rows = Ok out /\ In lr out /\ In r0 rows /\
-    v_start (snd lr) = v_start r0 /\ v_start r0 = 199 /\
-    g_freq (v_t (snd lr)) <> boost_row r0.
-Proof. exact boost_misaligned_refuted. Qed.
+(* ... and tumor_boost changes neither which rows are kept, nor their order, nor their labels *)
+Theorem C18_attached_boost_same_rows : forall paired zf rows out,
+  load_het_core paired zf true rows = Ok out ->
+  exists out0, load_het_core paired zf false rows = Ok out0 /\
+    map fst out = map fst out0 /\ Forall2 (fun a b => same_locus (snd a) (snd b)) out out0.
+Proof. exact load_het_boost_same_rows. Qed.
+
+(* any table, any labels: the assignment is row by row *)
+Theorem C18_attached_boost_rowwise : forall rows,
+  boost_assign rows = map (fun lr => (fst lr, set_freq (snd lr) (boost_row (snd lr)))) rows.
+Proof. reflexivity. Qed.
+
+(* baf_by_ranges(tumor_boost=True): the values summarised in a range are the TumorBoost values of
+   exactly the rows overlapping that range, each from its own frequencies *)
+Theorem C18_attached_boost_baf : forall rows rg,
+  hits_of (boost_assign rows) rg
+  = map (fun lr => boost_row (snd lr)) (filter (fun lr => overlaps rg (snd lr)) rows).
+Proof. exact hits_of_boost_assign. Qed.
 
 (* ---- hypotheses are satisfiable ------------------------------------------------------- *)
 
@@ -289,6 +380,21 @@ Example ex_load_het :
   end = [(0, 99); (2, 299)].
 Proof. vm_compute. reflexivity. Qed.
 
+(* record 200 is dropped (tumour het, normal ref): labels 0 and 2 survive, each with its own boost *)
+Example ex_load_het_boost :
+  match load_het_snps ex_header ex_recs SelNone SelNone (Some 20) None true with
+  | Ok t => map (fun lr => (fst lr, v_start (snd lr), g_freq (v_t (snd lr)))) (ht_rows t)
+  | Fail _ => []
+  end = [(0, 99, Fin (3 # 4)); (2, 299, Fin (7 # 9))].
+Proof. vm_compute. reflexivity. Qed.
+
 Example ex_baf :
   series2value (Some true) [Fin (1 # 4); Fin (7 # 10); Fin (4 # 5)] = Fin (3 # 4).
 Proof. vm_compute. reflexivity. Qed.
+
+Example ex_baf_single : series2value (Some false) [Fin (7 # 10)] = Fin (3 # 10).
+Proof. vm_compute. reflexivity. Qed.
+
+Example ex_empty_file :
+  read_vcf ex_header [] SelNone SelNone (Some 20) false true = Ok {| t_paired := true; t_rows := [] |}.
+Proof. reflexivity. Qed.
